@@ -10,10 +10,13 @@
 (*           DATA (4 past its size prefix), 0 = empty                         *)
 (*   inext   index nextPool: bucket -> [has, l]  (unflushed record lists)     *)
 (*   ifiles  index files, oldest first: each a sequence of records            *)
-(*           [b, ents]; ifirst = number of the first file; ilen = length of   *)
-(*           the current (last) file                                          *)
+(*           [b, ents, del, size]; ifirst = number of the first file; ilen =  *)
+(*           length of the current (last) file                                *)
 (*   pnext   primary nextPool: sequence of [pos, k, v] in Put order           *)
-(*   pfiles  primary files: sequences of [k, v, del]; pfirst, plen            *)
+(*   pfiles  primary files: sequences of [k, v, del, size] (size = payload     *)
+(*           bytes; a merged free span is one deleted record); pfirst, plen   *)
+(*   flgc    the .gc file handed to primary GC ([has, l]); visited = files    *)
+(*           primary GC has looked at and that were not affected since        *)
 (*   recFile, recPos   where primary.Put predicts the next record             *)
 (*   flpool, flfile    freelist pool / file: sequences of [off, sz]           *)
 (*   kv      ghost: the map of KV.tla (refinement witness)                    *)
@@ -30,13 +33,14 @@ EXTENDS RLOps, FiniteSets, TLC
 CONSTANTS Keys,       \* set of digests (equal length, >= 4 bytes); bucket = digest[1]
           Vals,       \* set of value lengths (a value is identified by its length)
           PriLimit, IdxLimit,
-          MaxCalls    \* bound on the history length (state space)
+          MaxCalls,   \* bound on the history length (state space)
+          WithGC      \* TRUE: the two collectors' cycles are among the calls
 
 VARIABLES kv, bk, inext, ifiles, ifirst, ilen,
           pnext, pfiles, pfirst, plen, recFile, recPos,
-          flpool, flfile, hist
-vars == <<kv, bk, inext, ifiles, ifirst, ilen, pnext, pfiles, pfirst, plen, recFile, recPos, flpool, flfile, hist>>
-View == <<kv, bk, inext, ifiles, ifirst, ilen, pnext, pfiles, pfirst, plen, recFile, recPos, flpool, flfile>>
+          flpool, flfile, flgc, visited, hist
+vars == <<kv, bk, inext, ifiles, ifirst, ilen, pnext, pfiles, pfirst, plen, recFile, recPos, flpool, flfile, flgc, visited, hist>>
+View == <<kv, bk, inext, ifiles, ifirst, ilen, pnext, pfiles, pfirst, plen, recFile, recPos, flpool, flfile, flgc, visited>>
 
 Bucket(k) == k[1]
 Strip(k) == SubSeq(k, 2, Len(k))
@@ -48,7 +52,7 @@ SomeList(x) == [has |-> TRUE, l |-> x]
 \* ---------------------------------------------------------------- primary
 PRecSize(v) == 4 + KeyLen + v
 RECURSIVE POffsets(_, _, _)
-POffsets(recs, i, acc) == IF i > Len(recs) THEN <<>> ELSE <<acc>> \o POffsets(recs, i + 1, acc + PRecSize(recs[i].v))
+POffsets(recs, i, acc) == IF i > Len(recs) THEN <<>> ELSE <<acc>> \o POffsets(recs, i + 1, acc + 4 + recs[i].size)
 \* primary.Get(pos): nextPool, then the files
 PriLookup(pos) ==
   IF \E i \in 1..Len(pnext) : pnext[i].pos = pos
@@ -71,7 +75,7 @@ PutPos == IF recPos >= PriLimit THEN [f |-> recFile + 1, p |-> 0] ELSE [f |-> re
 EntSize(e) == 13 + Len(e.p)
 RECURSIVE EntsSize(_)
 EntsSize(ents) == IF ents = <<>> THEN 0 ELSE EntSize(ents[1]) + EntsSize(Tail(ents))
-IRecSize(rec) == 8 + EntsSize(rec.ents)
+IRecSize(rec) == 4 + rec.size          \* live record: size = 4 (bucket tag) + entries; a merged free span is one record
 RECURSIVE IOffsets(_, _, _)
 IOffsets(recs, i, acc) == IF i > Len(recs) THEN <<>> ELSE <<acc>> \o IOffsets(recs, i + 1, acc + IRecSize(recs[i]))
 \* the record list the bucket table points at (readDiskBucket)
@@ -118,7 +122,7 @@ Init ==
   /\ bk = [b \in Buckets |-> 0] /\ inext = [b \in Buckets |-> NoList]
   /\ ifiles = << <<>> >> /\ ifirst = 0 /\ ilen = 0
   /\ pnext = <<>> /\ pfiles = << <<>> >> /\ pfirst = 0 /\ plen = 0 /\ recFile = 0 /\ recPos = 0
-  /\ flpool = <<>> /\ flfile = <<>>
+  /\ flpool = <<>> /\ flfile = <<>> /\ flgc = [has |-> FALSE, l |-> <<>>] /\ visited = {}
   /\ hist = <<>>
 
 Call(rec) == Len(hist) < MaxCalls /\ hist' = Append(hist, rec)
@@ -127,7 +131,7 @@ Put(k, v) ==
   /\ Call([op |-> "put", k |-> k, v |-> v])
   /\ LET lk == Lookup(k) IN
      IF lk.found /\ lk.v = v
-     THEN UNCHANGED <<kv, bk, inext, ifiles, ifirst, ilen, pnext, pfiles, pfirst, plen, recFile, recPos, flpool, flfile>>
+     THEN UNCHANGED <<kv, bk, inext, ifiles, ifirst, ilen, pnext, pfiles, pfirst, plen, recFile, recPos, flpool, flfile, flgc, visited>>
      ELSE LET pp  == PutPos
               abs == PriLimit * pp.f + pp.p
               loc == [off |-> abs, sz |-> KeyLen + v]
@@ -143,7 +147,7 @@ Put(k, v) ==
                                                                ELSE << [p |-> Take(Strip(k), 1), loc |-> loc] >>)]
                      /\ UNCHANGED flpool
              /\ kv' = [kv EXCEPT ![k] = v]
-             /\ UNCHANGED <<bk, ifiles, ifirst, ilen, pfiles, pfirst, plen, flfile>>
+             /\ UNCHANGED <<bk, ifiles, ifirst, ilen, pfiles, pfirst, plen, flfile, flgc, visited>>
 
 Remove(k) ==
   /\ Call([op |-> "rem", k |-> k])
@@ -151,18 +155,18 @@ Remove(k) ==
          b  == Bucket(k)
          el == EffList(b)
      IN IF ~lk.found
-        THEN UNCHANGED <<kv, bk, inext, ifiles, ifirst, ilen, pnext, pfiles, pfirst, plen, recFile, recPos, flpool, flfile>>
+        THEN UNCHANGED <<kv, bk, inext, ifiles, ifirst, ilen, pnext, pfiles, pfirst, plen, recFile, recPos, flpool, flfile, flgc, visited>>
         ELSE LET m == Match(el.l, Strip(k)) IN
              /\ inext' = [inext EXCEPT ![b] = SomeList(Splice(el.l, m, m + 1, <<>>))]
              /\ flpool' = Append(flpool, lk.loc)
              /\ kv' = [kv EXCEPT ![k] = -1]
-             /\ UNCHANGED <<bk, ifiles, ifirst, ilen, pnext, pfiles, pfirst, plen, recFile, recPos, flfile>>
+             /\ UNCHANGED <<bk, ifiles, ifirst, ilen, pnext, pfiles, pfirst, plen, recFile, recPos, flfile, flgc, visited>>
 
 \* primary.Flush: append the pooled records, rolling when the current length has reached the limit
 RECURSIVE PriAppendAll(_, _, _)
 PriAppendAll(files, len, recs) ==
   IF recs = <<>> THEN [files |-> files, len |-> len]
-  ELSE LET r      == [k |-> recs[1].k, v |-> recs[1].v, del |-> FALSE]
+  ELSE LET r      == [k |-> recs[1].k, v |-> recs[1].v, del |-> FALSE, size |-> KeyLen + recs[1].v]
            roll   == len >= PriLimit
            files2 == IF roll THEN Append(files, <<r>>) ELSE [files EXCEPT ![Len(files)] = Append(@, r)]
            len2   == (IF roll THEN 0 ELSE len) + PRecSize(r.v)
@@ -172,7 +176,7 @@ RECURSIVE IdxAppendAll(_, _, _, _, _)
 IdxAppendAll(files, len, order, pool, bks) ==
   IF order = <<>> THEN [files |-> files, len |-> len, bk |-> bks]
   ELSE LET b      == order[1]
-           rec    == [b |-> b, ents |-> pool[b].l]
+           rec    == [b |-> b, ents |-> pool[b].l, del |-> FALSE, size |-> 4 + EntsSize(pool[b].l)]
            roll   == len >= IdxLimit
            files2 == IF roll THEN Append(files, <<rec>>) ELSE [files EXCEPT ![Len(files)] = Append(@, rec)]
            start  == IF roll THEN 0 ELSE len
@@ -188,15 +192,102 @@ FlushWith(order) ==
      /\ ifiles' = ia.files /\ ilen' = ia.len /\ bk' = ia.bk
      /\ inext' = [b \in Buckets |-> NoList]
      /\ flfile' = flfile \o flpool /\ flpool' = <<>>
-     /\ UNCHANGED <<kv, ifirst, pfirst, recFile, recPos>>
+     /\ UNCHANGED <<kv, ifirst, pfirst, recFile, recPos, flgc, visited>>
 
 Flush ==
   /\ Call([op |-> "flush"])
   /\ IF pnext = <<>> /\ Dirty = {}        \* Store.Flush: no outstanding work (the freelist alone does not count)
-     THEN UNCHANGED <<kv, bk, inext, ifiles, ifirst, ilen, pnext, pfiles, pfirst, plen, recFile, recPos, flpool, flfile>>
+     THEN UNCHANGED <<kv, bk, inext, ifiles, ifirst, ilen, pnext, pfiles, pfirst, plen, recFile, recPos, flpool, flfile, flgc, visited>>
      ELSE \E order \in Perms(Dirty) : FlushWith(order)
 
-Next == (\E k \in Keys, v \in Vals : Put(k, v)) \/ (\E k \in Keys : Remove(k)) \/ Flush
+
+\* ---------------------------------------------------------------- primary GC (threshold 101: no relocation)
+\* freelist hand-over: the flushed freelist file becomes .gc (an existing .gc is used as it is)
+HandOver == IF flgc.has THEN [gc |-> flgc.l, fl |-> flfile] ELSE [gc |-> flfile, fl |-> <<>>]
+\* deleteRecords: mark the record at each freed location if it is there, unmarked and of the recorded size
+MarkAt(files, off, sz) ==
+  LET fnum == off \div PriLimit   local == off % PriLimit   fi == fnum - pfirst + 1 IN
+  IF fi < 1 \/ fi > Len(files) THEN files
+  ELSE LET recs == files[fi]   offs == POffsets(recs, 1, 0) IN
+       IF \E j \in 1..Len(recs) : offs[j] = local /\ ~recs[j].del /\ recs[j].size = sz
+       THEN LET j == CHOOSE j \in 1..Len(recs) : offs[j] = local IN [files EXCEPT ![fi][j].del = TRUE]
+       ELSE files
+RECURSIVE MarkAll(_, _)
+MarkAll(files, ents) == IF ents = <<>> THEN files ELSE MarkAll(MarkAt(files, ents[1].off, ents[1].sz), Tail(ents))
+Affected(before, after) == {pfirst + i - 1 : i \in {j \in 1..Len(before) : before[j] # after[j]}}
+\* reapRecords: merge adjacent free records, cut a free tail
+RECURSIVE Merge(_)
+Merge(recs) ==
+  IF Len(recs) < 2 THEN recs
+  ELSE IF recs[1].del /\ recs[2].del
+       THEN Merge(<< [k |-> <<>>, v |-> 0, del |-> TRUE, size |-> recs[1].size + 4 + recs[2].size] >> \o SubSeq(recs, 3, Len(recs)))
+       ELSE <<recs[1]>> \o Merge(Tail(recs))
+CutTail(recs) == IF recs # <<>> /\ recs[Len(recs)].del THEN SubSeq(recs, 1, Len(recs) - 1) ELSE recs
+Reap(recs) == CutTail(Merge(recs))
+\* one complete cycle over the non-current files that are not in `visited`
+RECURSIVE ReapFiles(_, _, _, _)
+ReapFiles(files, first, i, vis) ==        \* i = index into files of the file being looked at
+  IF i >= Len(files) THEN [files |-> files, first |-> first, vis |-> vis]
+  ELSE LET fnum == first + i - 1 IN
+       IF fnum \in vis THEN ReapFiles(files, first, i + 1, vis)
+       ELSE LET recs2 == Reap(files[i])
+                dead  == recs2 = <<>>
+            IN IF dead /\ i = 1
+               THEN ReapFiles(Tail(files), first + 1, 1, vis \cup {fnum})            \* header advanced, file removed
+               ELSE ReapFiles([files EXCEPT ![i] = recs2], first, i + 1, vis \cup {fnum})
+
+PriGC ==
+  /\ Call([op |-> "prigc"])
+  /\ LET ho     == HandOver
+         marked == MarkAll(pfiles, ho.gc)
+         vis1   == visited \ Affected(pfiles, marked)
+         rp     == ReapFiles(marked, pfirst, 1, vis1)
+     IN /\ pfiles' = rp.files /\ pfirst' = rp.first /\ visited' = rp.vis
+        /\ flfile' = ho.fl /\ flgc' = [has |-> FALSE, l |-> <<>>]
+        /\ plen' = plen
+  /\ UNCHANGED <<kv, bk, inext, ifiles, ifirst, ilen, pnext, recFile, recPos, flpool>>
+
+
+\* ---------------------------------------------------------------- index GC (one complete cycle)
+\* a record is busy iff its bucket points exactly at it
+IBusy(rec, fnum, off) == ~rec.del /\ bk[rec.b] = fnum * IdxLimit + off + 4
+IMarkFree(recs, fnum) ==
+  LET offs == IOffsets(recs, 1, 0) IN
+  [j \in 1..Len(recs) |-> IF recs[j].del \/ IBusy(recs[j], fnum, offs[j]) THEN recs[j]
+                           ELSE [b |-> 0, ents |-> <<>>, del |-> TRUE, size |-> recs[j].size]]
+RECURSIVE IMerge(_)
+IMerge(recs) ==
+  IF Len(recs) < 2 THEN recs
+  ELSE IF recs[1].del /\ recs[2].del
+       THEN IMerge(<< [b |-> 0, ents |-> <<>>, del |-> TRUE, size |-> recs[1].size + 4 + recs[2].size] >> \o SubSeq(recs, 3, Len(recs)))
+       ELSE <<recs[1]>> \o IMerge(Tail(recs))
+IReap(recs, fnum) == LET m == IMerge(IMarkFree(recs, fnum)) IN
+                     IF m # <<>> /\ m[Len(m)].del THEN SubSeq(m, 1, Len(m) - 1) ELSE m
+IReferenced == {(bk[b] - 4) \div IdxLimit : b \in {x \in Buckets : bk[x] # 0}}
+\* truncateFreeFiles: non-current files no bucket refers into: removed while they are the first file, else emptied
+RECURSIVE ITruncFree(_, _, _)
+ITruncFree(files, first, i) ==
+  IF i >= Len(files) THEN [files |-> files, first |-> first]
+  ELSE IF (first + i - 1) \in IReferenced THEN ITruncFree(files, first, i + 1)
+  ELSE IF i = 1 THEN ITruncFree(Tail(files), first + 1, 1)
+  ELSE ITruncFree([files EXCEPT ![i] = <<>>], first, i + 1)
+\* the reaping pass over the non-current files in order; an emptied file is removed while it is the first file
+RECURSIVE IPass(_, _, _)
+IPass(files, first, i) ==
+  IF i >= Len(files) THEN [files |-> files, first |-> first]
+  ELSE LET recs2 == IReap(files[i], first + i - 1) IN
+       IF recs2 = <<>> /\ i = 1 THEN IPass(Tail(files), first + 1, 1)
+       ELSE IPass([files EXCEPT ![i] = recs2], first, i + 1)
+
+IdxGC(scanFree) ==
+  /\ Call([op |-> "idxgc", scanFree |-> scanFree])
+  /\ LET a == IF scanFree THEN ITruncFree(ifiles, ifirst, 1) ELSE [files |-> ifiles, first |-> ifirst]
+         b == IPass(a.files, a.first, 1)
+     IN ifiles' = b.files /\ ifirst' = b.first
+  /\ UNCHANGED <<kv, bk, inext, ilen, pnext, pfiles, pfirst, plen, recFile, recPos, flpool, flfile, flgc, visited>>
+
+Next == \/ (\E k \in Keys, v \in Vals : Put(k, v)) \/ (\E k \in Keys : Remove(k)) \/ Flush
+        \/ (WithGC /\ (PriGC \/ \E sf \in BOOLEAN : IdxGC(sf)))
 Spec == Init /\ [][Next]_vars
 
 \* ---------------------------------------------------------------- properties
@@ -208,4 +299,6 @@ PredictedPositionsExact ==
         \A i \in 1..Len(DiskList(b).l) : PriLookup(DiskList(b).l[i].loc.off).found
 \* C13 (sequential): the freelist holds exactly the superseded locations, once each
 FreedOnce == \A i, j \in 1..Len(flfile \o flpool) : i # j => (flfile \o flpool)[i] # (flfile \o flpool)[j]
+\* C04 for this mechanism: a GC cycle never changes the contents
+GcKeepsContents == [][hist'[Len(hist')].op \in {"prigc", "idxgc"} => Contents' = Contents]_vars
 =======================================================================
